@@ -14,6 +14,13 @@ import (
 // C02 (QoS 2 exactly once), C03 (wire order = submission order), C12 (faithful retransmissions):
 // three oracles over the traces of the shared retry/reconnect harness (rc.go).
 
+// rcSessionModes: how the broker / client treat the session across reconnects.  "lost" and
+// "always-resubscribe" make the reconnect loop run Resubscribe before Retry.
+var rcSessionModes = []struct {
+	name         string
+	keep, always bool
+}{{"kept", true, false}, {"lost", false, false}, {"always-resubscribe", true, true}}
+
 func init() {
 	register("C02", runC02)
 	register("C03", runC03)
@@ -97,7 +104,8 @@ func runC02(c *Ctx) {
 	}
 	cut := env.FaultSet{LostClose: true, AckLost: true}
 	cutw := env.FaultSet{LostClose: true, AckLost: true, WriteErr: true, ConnRefuse: true}
-	one := [][]rcReq{{{Kind: "p2", Tag: "m1", Phase: 'S'}}, {{Kind: "p2", Tag: "m1", Phase: 'B'}}}
+	one := [][]rcReq{{{Kind: "p2", Tag: "m1", Phase: 'S'}}, {{Kind: "p2", Tag: "m1", Phase: 'B'}},
+		{{Kind: "sub", Subs: []string{"a:1"}, Phase: 'S'}, {Kind: "p2", Tag: "m1", Phase: 'S'}}}
 	mixed := c02Workloads(2)
 	fams := []fam{
 		{"one.F3", one, vrt.Budget{F: 3}, cutw},
@@ -117,21 +125,26 @@ func runC02(c *Ctx) {
 		c.Bound(f.name, fmt.Sprintf("%d workloads containing >=1 QoS 2 publish; faults %+v at every client->broker packet (PUBLISH, PUBREL, CONNECT ...); budget %s; receiver method A and B; session kept", len(f.wl), f.faults, f.bound))
 		for _, reqs := range f.wl {
 			for _, mb := range []bool{false, true} {
-				reqs, mb, f := reqs, mb, f
-				var run *rcRun
-				sc := &vrt.Scenario{
-					Name:  fmt.Sprintf("C02/%s/methodB=%v/%s", f.name, mb, rcName(reqs)),
-					Bound: f.bound,
-					Cfg:   vrt.Config{Horizon: int64(600 * time.Second)},
-					Body: func() {
-						rcExecuteInto(&rcCfg{Reqs: reqs, Faults: f.faults, KeepSession: true, MethodB: mb}, &run)
-						c02Oracle(run)
-					},
-					Observe: func() uint64 { return run.net.TraceHash() },
-				}
-				c.Explore(sc)
-				if run != nil && len(run.broker.FaultLog) > 1 {
-					sample = run
+				for _, always := range []bool{false, true} {
+					if always && !(len(reqs) <= 2 && (len(reqs) == 1 || reqs[0].Kind == "sub")) {
+						continue // AlwaysResubscribe: single message, and subscription + message
+					}
+					reqs, mb, f, always := reqs, mb, f, always
+					var run *rcRun
+					sc := &vrt.Scenario{
+						Name:  fmt.Sprintf("C02/%s/methodB=%v/alwaysResubscribe=%v/%s", f.name, mb, always, rcName(reqs)),
+						Bound: f.bound,
+						Cfg:   vrt.Config{Horizon: int64(600 * time.Second)},
+						Body: func() {
+							rcExecuteInto(&rcCfg{Reqs: reqs, Faults: f.faults, KeepSession: true, MethodB: mb, AlwaysResub: always}, &run)
+							c02Oracle(run)
+						},
+						Observe: func() uint64 { return run.net.TraceHash() },
+					}
+					c.Explore(sc)
+					if run != nil && len(run.broker.FaultLog) > 1 {
+						sample = run
+					}
 				}
 			}
 		}
@@ -240,9 +253,9 @@ func runC03(c *Ctx) {
 	cl := env.FaultSet{LostClose: true, AckLost: true}
 	fams := []fam{
 		{"N2.F2", 2, []string{"p1", "p2"}, []byte{'N', 'H'}, vrt.Budget{F: 2}, cl},
-		{"N2.F1.all", 2, []string{"p0", "p1", "p2", "sub"}, []byte{'B', 'N', 'O', 'H'}, vrt.Budget{F: 1}, cut},
+		{"N2.F1.all", 2, []string{"p0", "p1", "p2", "sub"}, []byte{'B', 'N', 'H'}, vrt.Budget{F: 1}, cut},
 		{"N3.F1", 3, []string{"p1", "p2", "sub"}, []byte{'B', 'N'}, vrt.Budget{F: 1}, cl},
-		{"N3.F2.pub", 3, []string{"p1", "p2"}, []byte{'N'}, vrt.Budget{F: 2}, cl},
+		{"N3.F2.pub", 3, []string{"p1"}, []byte{'N'}, vrt.Budget{F: 2}, cl},
 	}
 	if c.Thorough() {
 		fams = []fam{
@@ -257,24 +270,29 @@ func runC03(c *Ctx) {
 		wls := rcWorkloads(f.n, f.kinds, f.phases)
 		c.Bound(f.name, fmt.Sprintf("%d workloads (length<=%d over %v x phases %q, one submitting task); faults %+v; budget %s", len(wls), f.n, f.kinds, string(f.phases), f.faults, f.bound))
 		for _, reqs := range wls {
-			if len(reqs) < 2 {
+			if len(reqs) < 2 || !c.Thorough() && !rcLateOnlyLast(reqs) {
 				continue
 			}
-			reqs, f := reqs, f
-			var run *rcRun
-			sc := &vrt.Scenario{
-				Name:  fmt.Sprintf("C03/%s/%s", f.name, rcName(reqs)),
-				Bound: f.bound,
-				Cfg:   vrt.Config{Horizon: int64(600 * time.Second)},
-				Body: func() {
-					rcExecuteInto(&rcCfg{Reqs: reqs, Faults: f.faults, KeepSession: true}, &run)
-					c03Oracle(run)
-				},
-				Observe: func() uint64 { return run.net.TraceHash() },
-			}
-			c.Explore(sc)
-			if run != nil && len(run.broker.FaultLog) > 1 {
-				sample = run
+			for _, sess := range rcSessionModes {
+				if sess.name != "kept" && !(f.name == "N2.F2" || f.name == "N2.F2.all") {
+					continue
+				}
+				reqs, f, sess := reqs, f, sess
+				var run *rcRun
+				sc := &vrt.Scenario{
+					Name:  fmt.Sprintf("C03/%s/session=%s/%s", f.name, sess.name, rcName(reqs)),
+					Bound: f.bound,
+					Cfg:   vrt.Config{Horizon: int64(600 * time.Second)},
+					Body: func() {
+						rcExecuteInto(&rcCfg{Reqs: reqs, Faults: f.faults, KeepSession: sess.keep, AlwaysResub: sess.always}, &run)
+						c03Oracle(run)
+					},
+					Observe: func() uint64 { return run.net.TraceHash() },
+				}
+				c.Explore(sc)
+				if run != nil && len(run.broker.FaultLog) > 1 {
+					sample = run
+				}
 			}
 		}
 	}
@@ -347,6 +365,10 @@ func runC12(c *Ctx) {
 		// the caller's Message arrives with Dup already set (forwarded from a handler / reused struct)
 		one = append(one, []rcReq{{Kind: k, Tag: "m1", Phase: 'S', Dup: true}})
 	}
+	// a subscription is established first, so that resubscription has something to do
+	for _, k := range []string{"p1", "p2"} {
+		one = append(one, []rcReq{{Kind: "sub", Subs: []string{"a:1"}, Phase: 'S'}, {Kind: k, Tag: "m1", Phase: 'S'}})
+	}
 	two := rcWorkloads(2, []string{"p0", "p1", "p2"}, []byte{'S', 'N'})
 	fams := []fam{
 		{"one.F3", one, vrt.Budget{F: 3}, cut},
@@ -363,23 +385,28 @@ func runC12(c *Ctx) {
 	for _, f := range fams {
 		c.Bound(f.name, fmt.Sprintf("%d publish workloads; faults %+v at every step of the QoS 1 / QoS 2 exchange; budget %s", len(f.wl), f.faults, f.bound))
 		for _, reqs := range f.wl {
-			reqs, f := reqs, f
-			var run *rcRun
-			sc := &vrt.Scenario{
-				Name:  fmt.Sprintf("C12/%s/%s", f.name, rcName(reqs)),
-				Bound: f.bound,
-				Cfg:   vrt.Config{Horizon: int64(600 * time.Second)},
-				Body: func() {
-					rcExecuteInto(&rcCfg{Reqs: reqs, Faults: f.faults, KeepSession: true}, &run)
-					if run.connectOK {
-						c12Oracle(run.net, func(k string) string { return k + ":faults=" + run.faultKinds() }, run.summary)
-					}
-				},
-				Observe: func() uint64 { return run.net.TraceHash() },
-			}
-			c.Explore(sc)
-			if run != nil && len(run.broker.FaultLog) > 1 {
-				sample = run
+			for _, sess := range rcSessionModes {
+				if sess.name != "kept" && len(reqs) > 1 && reqs[0].Kind != "sub" {
+					continue // session loss / forced resubscription: single-message workloads and the sub+pub ones below
+				}
+				reqs, f, sess := reqs, f, sess
+				var run *rcRun
+				sc := &vrt.Scenario{
+					Name:  fmt.Sprintf("C12/%s/session=%s/%s", f.name, sess.name, rcName(reqs)),
+					Bound: f.bound,
+					Cfg:   vrt.Config{Horizon: int64(600 * time.Second)},
+					Body: func() {
+						rcExecuteInto(&rcCfg{Reqs: reqs, Faults: f.faults, KeepSession: sess.keep, AlwaysResub: sess.always}, &run)
+						if run.connectOK {
+							c12Oracle(run.net, func(k string) string { return k + ":faults=" + run.faultKinds() }, run.summary)
+						}
+					},
+					Observe: func() uint64 { return run.net.TraceHash() },
+				}
+				c.Explore(sc)
+				if run != nil && len(run.broker.FaultLog) > 1 {
+					sample = run
+				}
 			}
 		}
 	}
